@@ -192,6 +192,15 @@ fn label(code: &[usize]) -> String {
 
 /// check one genome; Some((key, what)) on violation
 pub fn check_genome(code: &[usize]) -> (Option<(String, String)>, Option<Vec<PushProgram>>) {
+    {
+        let c = code.to_vec();
+        mcx::watch::enter(Box::new(move |_| (format!("parse/hang/{}", label(&c)), format!("parsing [{}]", label(&c)), json!({"check":"C05","code": c}))));
+    }
+    let r = check_genome_inner(code);
+    mcx::watch::leave();
+    r
+}
+fn check_genome_inner(code: &[usize]) -> (Option<(String, String)>, Option<Vec<PushProgram>>) {
     let genes = genes_of(code);
     let real = match mcx::guarded(|| Vec::<PushProgram>::from(Plushy::new(genes.clone()))) {
         Ok(p) => p,
